@@ -282,7 +282,10 @@ def run(ctx):
                             ctx.ob("C07.V2.comparator-is-total", "%s%s|%s" % (tag, f.path, c.name.split("::")[-1]), not badc,
                                    "comparator passed to %s uses %s: not a total order (NaN) / may panic" % (c.name.split("::")[-1], badc),
                                    f.where(c.bb))
-        ctx.floor("C07.V2 comparator closures" + tag, n2, 3)
+        if prog.has_fn("minijinja::filters::builtins::sort"):
+            ctx.floor("C07.V2 comparator closures" + tag, n2, 3)
+        else:
+            ctx.count("configs without the builtin filters")
 
         # ---- V3: the float order agrees with float equality.  `==` on values compares floats with IEEE `==`
         # (-0.0 == 0.0); an order computed from the bit pattern (f64::total_cmp, to_bits) tells them apart, so a
